@@ -479,20 +479,24 @@ def coq_body(items):
         lines.append(f"Definition g{k} : graph := {g}.")
         lines.append(f"Definition iv{k} : list (vname * attrv) := {iv}.")
         use_ops, inline = option_terms(opts)
-        lines.append(f"Definition m{k} := export_cf kwlist {pre} {ren} {infun} {use_ops} {inline} "
-                     f"{cbool(opts['skip_initializers'])} {fname} iv{k} g{k}.")
+        lines.append(f"Definition m{k} := refuse_hazard {cbool(VR.detect()['refuse_hazard'])} g{k} (export_cf kwlist {pre} {ren} {infun} {use_ops} {inline} "
+                     f"{cbool(opts['skip_initializers'])} {fname} iv{k} g{k}).")
         lines.append(f"Definition o{k} : option (func * list string) := {obs['func'] or 'None'}.")
         plain = OKB is not None and not (opts["use_operators"] or opts["inline_const"] or opts["skip_initializers"])
-        lines.append(f"Definition h{k} : bool := {OKB + ' kwlist ' + pre + ' ' + ren + ' ' + infun + ' iv' + str(k) + ' g' + str(k) if plain else 'false'}.")
+        lines.append(f"Definition h{k} : bool := {OKB + ' kwlist ' + pre + ' ' + ren + ' ' + infun + ' true iv' + str(k) + ' g' + str(k) if plain else 'false'}.")
+        lines.append(f"Definition hn{k} : bool := {OKB + ' kwlist ' + pre + ' ' + ren + ' ' + infun + ' false iv' + str(k) + ' g' + str(k) if plain else 'false'}.")
+        lines.append(f"Definition rt{k} : bool * bool * bool := {'rt_class m' + str(k) if plain else '(false, false, false)'}.")
     n = len(items)
     lines.append(f"Eval vm_compute in (disagreeing_cf 0 {clist([f'(m{k}, o{k})' for k in range(n)])}).")
     lines.append(f"Eval vm_compute in {clist([f'h{k}' for k in range(n)])}.")
     lines.append(f"Eval vm_compute in {clist([f'is_some m{k}' for k in range(n)])}.")
+    lines.append(f"Eval vm_compute in {clist([f'hn{k}' for k in range(n)])}.")
+    lines.append(f"Eval vm_compute in {clist([f'rt{k}' for k in range(n)])}.")
     return "\n".join(lines)
 
 
 OKB = "nested_okb"
-REQUIRES = ["OV.Gen.ExportTables", "OV.Export.Cleanup", "OV.Export.Unique", "OV.Graph.Syntax", "OV.Script.Syntax", "OV.Export.Emit", "OV.Export.EmitCF"]
+REQUIRES = ["OV.Gen.ExportTables", "OV.Export.Cleanup", "OV.Export.Unique", "OV.Graph.Syntax", "OV.Script.Syntax", "OV.Export.Emit", "OV.Export.EmitCF", "OV.Export.RoundTripClass"]
 
 
 # ----------------------------------------------------------------------------------------------- hand-made nested models
